@@ -541,6 +541,9 @@ class Frame:
         if k in ('var', 'field', 'arrow', 'elem', 'deref', 'elemx'):
             return self.load(e, pc)
         if k == 'addr':
+            if e[1][0] == 'call':
+                v = self.ev(e[1], pc)            # address of a temporary returned by a call (bound to a const reference parameter)
+                return v if isinstance(v, Cell) else Cell(v)
             c, key = self.loc(e[1], pc)
             if key is None:
                 return c
